@@ -38,6 +38,7 @@ def _frames():
             "g": pd.array(["g%d" % (i % 5) for i in range(n)], dtype="object"),
             "v": np.arange(n, dtype="int64"),
             "w": (np.arange(n, dtype="int64") * 7) % 11,
+            "f": pd.array([None if i in (13, 29) else float(i % 9) + 1.0 for i in range(n)], dtype="float64"),
         }
     )
     right = pd.DataFrame({"k": np.array([0, 1, 2, 3, 5, 8, 9, 3], dtype="int64"), "r": np.arange(8, dtype="int64") * 100})
@@ -54,6 +55,22 @@ def _knob_queries():
     q.append(("frame_max", lambda L, R: L[["v", "w"]].max(), lambda L, R, k: L[["v", "w"]].max(**_kw(split_every=k["se"])), {"se": se}, False))
     q.append(("nunique", lambda L, R: L.k.nunique(), lambda L, R, k: L.k.nunique(**_kw(split_every=k["se"])), {"se": se}, False))
     q.append(("count", lambda L, R: L.count(), lambda L, R, k: L.count(**_kw(split_every=k["se"])), {"se": se}, False))
+    for red in ("sum", "prod", "mean", "max"):
+        for skipna in (True, False):
+            q.append((f"{red}_skipna{int(skipna)}", lambda L, R, red=red, skipna=skipna: getattr(L.f, red)(skipna=skipna),
+                      lambda L, R, k, red=red, skipna=skipna: getattr(L.f, red)(skipna=skipna, **_kw(split_every=k["se"])), {"se": se}, False))
+    q.append(("frame_sum_skipna0", lambda L, R: L[["f", "v"]].sum(skipna=False),
+              lambda L, R, k: L[["f", "v"]].sum(skipna=False, **_kw(split_every=k["se"])), {"se": se}, False))
+    # keys with different names on the two sides: the broadcast side must be hashed by ITS key
+    for how in ("inner", "left", "right"):
+        q.append((f"merge_lr_{how}", lambda L, R, how=how: L.merge(R.rename(columns={"k": "kr"}), left_on="k", right_on="kr", how=how),
+                  lambda L, R, k, how=how: L.merge(R.rename(columns={"k": "kr"}), left_on="k", right_on="kr", how=how, broadcast=k["bc"],
+                                                   **({"shuffle_method": k["sm"]} if k["sm"] else {})),
+                  {"bc": [None, True, False, 0.5], "sm": ["tasks", "disk"]}, True))
+        q.append((f"merge_rl_{how}", lambda L, R, how=how: R.rename(columns={"k": "kr"}).merge(L, left_on="kr", right_on="k", how=how),
+                  lambda L, R, k, how=how: R.rename(columns={"k": "kr"}).merge(L, left_on="kr", right_on="k", how=how, broadcast=k["bc"],
+                                                   **({"shuffle_method": k["sm"]} if k["sm"] else {})),
+                  {"bc": [None, True, False, 0.5], "sm": ["tasks", "disk"]}, True))
     q.append(("gb_sum", lambda L, R: L.groupby("k")[["v", "w"]].sum(),
               lambda L, R, k: L.groupby("k")[["v", "w"]].sum(**_kw(split_every=k["se"], split_out=k["so"])), {"se": se, "so": so}, True))
     q.append(("gb_agg2", lambda L, R: L.groupby(["k", "g"]).agg({"v": "max", "w": "count"}),
@@ -179,6 +196,9 @@ def _cases(ctx, broken):
                  if ctx.rng.random() < (0.35 if ctx.quick else 1.0) or cuts == [0, 4, 8]]
     ctx.rng.shuffle(cases)
     must = [c for c in cases if c.get("cat_keys")] + presorted
+    must += [c for c in cases if "skipna0" in c["query"] and c["nl"] == 9 and c["knobs"].get("se") in (2, 3) and c["fuse"]]
+    must += [c for c in cases if c["query"] in ("merge_lr_right", "merge_rl_left", "merge_rl_right", "merge_lr_left") and c["knobs"].get("bc") is True
+             and c["knobs"].get("sm") == "tasks" and (c["nl"], c["nr"]) in ((5, 2), (3, 9)) and c["fuse"]]
     if ctx.quick:
         cases = must + cases[:200]
     else:
